@@ -54,6 +54,16 @@ func backendOps() []raceOp {
 		{"DeleteAll", func(e *raceEnv, i int) { e.b.DeleteAll(e.ctx) }},
 		{"Len", func(e *raceEnv, i int) { _ = e.b.Len() }},
 		{"Walk", func(e *raceEnv, i int) { _ = e.b.Walk() }},
+		{"TransferWalk", func(e *raceEnv, i int) {
+			// the walker the HTTP transfer uses (ShardedMapOf hands out an adapter with a Walk of its own)
+			var w cache.WalkDumpRestorer
+			if a, ok := e.b.Raw().(interface{ WalkDumpRestorer() cache.WalkDumpRestorer }); ok {
+				w = a.WalkDumpRestorer()
+			} else {
+				w = e.b.Raw().(cache.WalkDumpRestorer)
+			}
+			_, _ = w.Walk(func(cache.Entry) error { return nil })
+		}},
 		{"Dump", func(e *raceEnv, i int) { var w bytes.Buffer; _, _ = e.b.Dump(&w) }},
 		{"Restore", func(e *raceEnv, i int) { _, _ = e.b.Restore(bytes.NewReader(e.buf.Bytes())) }},
 		{"Cleanup", func(e *raceEnv, i int) { e.b.Cleanup() }},
